@@ -4,6 +4,7 @@
 import Driver.Ctl
 import Svgdx.Xml.Raw
 import Svgdx.Xml.Write
+import Svgdx.Xml.RefCheck
 import Svgdx.Doc.Root
 import Svgdx.Geom.Text
 import Svgdx.Doc.Transform
@@ -51,6 +52,14 @@ def handleXml (op : Str) (args : List Str) : Option String :=
   else if op == cs!"xml_unescape" then
     match args with
     | [s] => some (match Xml.unescape s with | some r => joinFields [cs!"ok", r] | none => "err")
+    | _ => none
+  else if op == cs!"ref_check" then
+    -- ref_check hasDoctype(0|1) s : `invalid_reference(s, has_doctype)` of the reader
+    match args with
+    | [hd, s] =>
+      some (match Xml.invalidReference s (hd == ['1']) with
+        | none => "none"
+        | some r => joinFields [cs!"some", r])
     | _ => none
   else if op == cs!"text_attr" then
     match args with
